@@ -47,6 +47,9 @@ type Model struct {
 	skips   []skipPat
 	explicit []explicitN
 	Out     []*Expect
+	// Hidden holds expectations for leaves the package cannot name (unexported members of foreign
+	// structs) that nevertheless receive a value because an enclosing struct is copied as a whole.
+	Hidden []*Expect
 }
 
 type skipPat struct {
@@ -264,6 +267,32 @@ func (md *Model) expandLeaves(path string, t types.Type, mk func(leaf, rest stri
 	}
 	walk(path, "", t, 0)
 	_ = any
+}
+
+// expandHidden emits the leaves below a by-value struct whose path runs through at least one member
+// the package cannot name (blank fields excepted).
+func (md *Model) expandHidden(path string, t types.Type, mk func(leaf, rest string, lt types.Type) *Expect) {
+	if structOf(t) == nil || isPtr(t) {
+		return
+	}
+	var walk func(p, rest string, t types.Type, hidden bool, depth int)
+	walk = func(p, rest string, t types.Type, hidden bool, depth int) {
+		st := structOf(t)
+		if st == nil || isPtr(t) || depth > 8 || st.NumFields() == 0 {
+			if hidden {
+				md.Hidden = append(md.Hidden, mk(p, rest, t))
+			}
+			return
+		}
+		for i := 0; i < st.NumFields(); i++ {
+			f := st.Field(i)
+			if f.Name() == "_" {
+				continue
+			}
+			walk(join(p, f.Name()), rest+"."+f.Name(), f.Type(), hidden || !md.accessible(f), depth+1)
+		}
+	}
+	walk(path, "", t, false, 0)
 }
 
 // structToStruct matches every accessible member of the destination struct type dt (at path prefix).
@@ -593,6 +622,10 @@ func (md *Model) defaultMatch(path, name string, ft types.Type, srcN *node, belo
 		}
 		md.expandLeaves(path, ft, func(leaf, rest string, lt types.Type) *Expect {
 			return &Expect{Path: leaf, Class: "assign", Sources: withRest(srcs, rest), Governed: "default", Type: lt, Notes: notes}
+		})
+		md.expandHidden(path, ft, func(leaf, rest string, lt types.Type) *Expect {
+			return &Expect{Path: leaf, Class: "assign", Sources: withRest(srcs, rest), Governed: "default", Type: lt,
+				Notes: append(append([]string{}, notes...), "hidden member of a struct copied as a whole")}
 		})
 		return
 	}
